@@ -312,17 +312,19 @@ pub fn render_integer(
 	caps: bool,
 ) {
 	debug_assert!(iv >= 0.0, "render_integer receives sign using arg");
-	let iv = iv.floor() as i64;
+	// Numbers above i64::MAX are valid here, digits are computed on floats
+	let iv = iv.floor();
+	let radix = radix as f64;
 	// Digit char indexes in reverse order, i.e
 	// for radix = 16 and n = 12f: [15, 2, 1]
-	let digits = if iv == 0 {
+	let digits = if iv == 0.0 {
 		vec![0u8]
 	} else {
-		let mut v = iv.abs();
+		let mut v = iv;
 		let mut nums = Vec::with_capacity(1);
-		while v != 0 {
+		while v != 0.0 && v.is_finite() {
 			nums.push((v % radix) as u8);
-			v /= radix;
+			v = (v / radix).floor();
 		}
 		nums
 	};
